@@ -285,6 +285,24 @@ class Snap(object):
             return {'type': 'ExtraNode', 'uid': self.u(n)}
         return {'type': cls}
 
+    def bound(self, scene):
+        """what the traversal of a scene exposes for its geometry instances: per bound geometry (in traversal
+        order) the geometry and, per primitive, the material it is bound to and the vertex-input map"""
+        out = []
+        try:
+            for bg in scene.objects('geometry'):
+                prims = []
+                for bp in bg.primitives():
+                    m = getattr(bp, 'material', None)
+                    im = getattr(bp, 'inputmap', None)
+                    prims.append({'material': None if m is None else getattr(m, 'id', repr(m)),
+                                  'inputmap': None if im is None else
+                                  sorted([[k, v[0], v[1]] for k, v in im.items()], key=repr)})
+                out.append({'geometry': bg.original.id, 'prims': prims})
+        except Exception as e:  # noqa
+            return {'error': type(e).__name__, 'msg': str(e)[:160], 'before': out}
+        return out
+
     def prescan_nodes(self, nodes):
         """register every Node object reachable from the library / scene lists before references are walked"""
         for n in nodes:
@@ -310,7 +328,8 @@ class Snap(object):
         for s in c.scenes:
             self.prescan_nodes(list(s.nodes))
         d['nodes'] = [self.node(x, True) for x in c.nodes]
-        d['scenes'] = [{'uid': self.register(s), 'id': s.id, 'nodes': [self.node(x, True) for x in s.nodes]} for s in c.scenes]
+        d['scenes'] = [{'uid': self.register(s), 'id': s.id, 'nodes': [self.node(x, True) for x in s.nodes],
+                        'bound_geometries': self.bound(s)} for s in c.scenes]
         d['scene'] = self.ref(c.scene)
         return d
 
